@@ -491,3 +491,22 @@ func compareOutcome(out *evalOutcome, want map[string]string) string {
 	}
 	return ""
 }
+
+// EvalFn evaluates fn abstractly with the given parameter values (rendered
+// constants, "" = unknown) and returns the outcome. Used to extract finite
+// tables from small pure functions.
+func EvalFn(c *Ctx, fn *ssa.Function, params []string, noInline []string) *evalOutcome {
+	spec := &TableSpec{Fn: fn, NoInline: noInline, Depth: 2}
+	ev := &evaluator{c: c, spec: spec, asg: map[string]string{}, used: map[string]bool{}}
+	out := &evalOutcome{Effects: map[string]string{}, Calls: map[string]string{}}
+	f := &frame{fn: fn, env: map[ssa.Value]string{}, syms: NewSymer()}
+	for i, p := range fn.Params {
+		if i < len(params) && params[i] != "" {
+			f.env[p] = params[i]
+		}
+	}
+	c.Funcs[FuncName(fn)] = true
+	c.Cells++
+	out.Ret = ev.run(f, out, 2)
+	return out
+}
